@@ -166,7 +166,10 @@ def checkFrame (e : Expr) (c : Ctx) (real inner : Invoked) : List AFail :=
     let star := inner.1.nospace.elem '*' || chars.isEmpty || chars.elem '*'
     fail "nospace" (valuesAre id && real.1.messages == inner.1.messages && real.1.usage == inner.1.usage &&
       (if star then real.1.nospace == ['*']
-       else real.1.nospace.all want && (inner.1.nospace ++ chars).all (fun ch => real.1.nospace.elem ch)))
+       else real.1.nospace.all want && (inner.1.nospace ++ chars).all (fun ch => real.1.nospace.elem ch))) ++
+    -- C05: a declared no-space character is never lost (NoSpace only adds to the set)
+    (if star || (inner.1.nospace ++ chars).all (fun ch => real.1.nospace.elem ch) then [] else
+      [{ prop := "C05", code := "declared_nospace_lost", detail := s!"NoSpace({String.ofList chars}) over {String.ofList inner.1.nospace} gives {String.ofList real.1.nospace}" }])
   | .suppress lit _ =>
     fail "suppress" (valuesAre id && real.1.nospace == inner.1.nospace && real.1.usage == inner.1.usage &&
       real.1.messages == inner.1.messages.filter (fun m => !Str.contains m lit))
@@ -334,6 +337,10 @@ def runHistory (inp out : Json) : Json := Id.run do
       | _, _ => false
     if !eq && fails.length < 3 then
       fails := fails ++ [{ prop := "C08", code := "trace_of_earlier_invocation", detail := s!"step {kk}: reused value yields {match rr with | some x => showInvoked x | none => "PANIC"} fresh value yields {match ff with | some x => showInvoked x | none => "PANIC"}" }]
+      -- a Batch whose merged result is not that of its members (an earlier or a sibling Batch wrote into a shared member): C09
+      let ek := exprKind (table.getD (jnat (steps.getD kk Json.null) "e") (.plain []))
+      if ek == "batch" then
+        fails := fails ++ [{ prop := "C09", code := "batch_result_carries_foreign_state", detail := s!"step {kk}: the Batch yields {match rr with | some x => showInvoked x | none => "PANIC"}, built from fresh members it yields {match ff with | some x => showInvoked x | none => "PANIC"}" }]
     kk := kk + 1
   if !(jarr out "ctxChanged").isEmpty then
     fails := fails ++ [{ prop := "C08", code := "caller_context_changed", detail := (jget out "ctxChanged").compress }]
